@@ -706,7 +706,7 @@ func (c *Ctx) alwaysStarError(fn *ssa.Function) bool {
 					okAll = false
 					continue
 				}
-				if _, isAlloc := mi.X.(*ssa.Alloc); !isAlloc {
+				if _, isAlloc := mi.X.(*ssa.Alloc); !isAlloc && !c.freshStarError(mi.X, 0) {
 					okAll = false
 				}
 			}
@@ -715,6 +715,36 @@ func (c *Ctx) alwaysStarError(fn *ssa.Function) bool {
 	if okAll && n > 0 {
 		c.starErrMemo[fn] = 1
 		return true
+	}
+	return false
+}
+
+// freshStarError: the *Error value is made on the spot - the address of a composite literal, or the result of a
+// function of the package every return of which is one (a builder shared by the constructors).
+func (c *Ctx) freshStarError(v ssa.Value, depth int) bool {
+	if depth > 3 {
+		return false
+	}
+	switch t := v.(type) {
+	case *ssa.Alloc:
+		return true
+	case *ssa.Call:
+		cal := t.Call.StaticCallee()
+		if cal == nil || !c.inPkg(cal) || len(cal.Blocks) == 0 {
+			return false
+		}
+		n := 0
+		for _, b := range cal.Blocks {
+			for _, in := range b.Instrs {
+				if rt, ok := in.(*ssa.Return); ok {
+					if len(rt.Results) != 1 || !c.freshStarError(rt.Results[0], depth+1) {
+						return false
+					}
+					n++
+				}
+			}
+		}
+		return n > 0
 	}
 	return false
 }
